@@ -73,7 +73,7 @@ def run(ck):
                         else:
                             _report_cond(ck, inst, site, got, want)
                         out_dim = {"prob_h_given_v": "nh", "prob_a_given_v": "na"}.get(name, "nv")
-                        ck.check(res[name].shape == lead + (out_dim,), "C05.R1", inst + ":shape", site,
+                        ck.check(shape_is(res[name], lead + (out_dim,)), "C05.R1", inst + ":shape", site,
                                  "conditional has shape %s, expected %s" % (res[name].shape, lead + (out_dim,)))
                         sname = name.replace("prob_", "sample_")
                         sv = res[sname]
